@@ -38,7 +38,15 @@ func (g *Gen) Program() *Program {
 	// helper used by to-be-closed templates
 	stmts = append(stmts, LocFn("mkc", Fn([]string{"id"},
 		Ret(CN("setmetatable", Tab(), Tab(FK("__close", Fn([]string{"o", "e"}, Emit(S("close"), N("id"), N("e"))))))))))
+	// the same with a handler that raises (its error replaces the one in flight)
+	stmts = append(stmts, LocFn("mkce", Fn([]string{"id"},
+		Ret(CN("setmetatable", Tab(), Tab(FK("__close", Fn([]string{"o", "e"},
+			Emit(S("close-raising"), N("id"), N("e")),
+			Do1(CN("error", B("..", S("ce"), N("id")), I(0)))))))))))
 	stmts = append(stmts, g.stmts(true)...)
+	if g.o.Health {
+		stmts = append(stmts, g.healthSuite()...)
+	}
 	if g.chance(2) {
 		stmts = append(stmts, Ret(g.retExprs()...))
 	}
@@ -331,7 +339,14 @@ func (g *Gen) loopBody(pre func()) *Block {
 	if pre != nil {
 		pre()
 	}
-	b := &Block{Stmts: g.stmts(false)}
+	var head []Stmt
+	if g.o.WTBC > 0 && g.n(40) < g.o.WTBC {
+		// a to-be-closed variable directly in the loop body: closed at the end of
+		// every iteration and by break / goto / return / error out of the loop
+		head = append(head, g.tbcDecl())
+		g.feat("tbc-in-loop")
+	}
+	b := &Block{Stmts: append(head, g.stmts(false)...)}
 	g.depth--
 	g.pop()
 	g.loops = g.loops[:len(g.loops)-1]
@@ -446,8 +461,21 @@ func (g *Gen) sGenFor() []Stmt {
 		lim := g.smallInt(0, 4)
 		iter := LocFn(it, Fn([]string{"st", "c"},
 			IfS(B("<", N("c"), N("st")), Blk(Ret(B("+", N("c"), I(1)), B("*", N("c"), I(2)))), nil)))
+		if g.o.ErrInMeta && g.chance(3) {
+			// an iterator that raises in the middle of the loop
+			iter = LocFn(it, Fn([]string{"st", "c"},
+				IfS(B("==", N("c"), I(2)), Blk(Do1(CN("error", g.errValue()))), nil),
+				IfS(B("<", N("c"), N("st")), Blk(Ret(B("+", N("c"), I(1)), B("*", N("c"), I(2)))), nil)))
+			g.feat("iterator-raises")
+		}
 		k, v := &gvar{name: g.fresh("k"), kind: KInt}, &gvar{name: g.fresh("e"), kind: KInt}
 		s := &GenFor{Vars: []*Decl{{Name: k.name}, {Name: v.name}}, Exprs: []Expr{N(it), lim, I(0)}}
+		if g.o.WTBC > 0 && g.chance(3) {
+			// the fourth value of the generic for is a closing value
+			g.labelCtr++
+			s.Exprs = append(s.Exprs, CN("mkc", I(int64(g.labelCtr))))
+			g.feat("for-closing-value")
+		}
 		s.Body = g.loopBody(func() { g.declare(k); g.declare(v) })
 		g.feat("for-closure-iterator")
 		return []Stmt{iter, s}
@@ -480,7 +508,13 @@ func (g *Gen) funcBody(params []*gvar, vararg bool, inCo bool) *Block {
 	if g.budget > 8 {
 		g.budget = 8
 	}
-	st := g.stmts(false)
+	var st []Stmt
+	if g.o.WTBC > 0 && g.n(40) < g.o.WTBC {
+		// pending close at function level: `return f()` below it is not a tail call
+		st = append(st, g.tbcDecl())
+		g.feat("tbc-in-function")
+	}
+	st = append(st, g.stmts(false)...)
 	g.budget = saved - (8 - g.budget)
 	if g.budget < 0 {
 		g.budget = 0
@@ -623,10 +657,17 @@ func (g *Gen) sClass() []Stmt {
 	mk := g.fresh("mk")
 	out = append(out, LocFn(mk, Fn([]string{"v"}, Ret(CN("setmetatable", Tab(FK("v", N("v"))), N(mt))))))
 	trace := func(ev string, args ...Expr) []Stmt {
-		if !tracing {
-			return nil
+		var st []Stmt
+		if tracing {
+			st = append(st, Emit(append([]Expr{S(ev)}, args...)...))
 		}
-		return []Stmt{Emit(append([]Expr{S(ev)}, args...)...)}
+		if tracing && g.o.ErrInMeta && g.chance(4) && ev != "__call" && ev != "__index" && ev != "__newindex" {
+			// the metamethod raises for some operands (objects of tracing classes are
+			// only used in single-operation statements)
+			st = append(st, IfS(B("==", B("%", payload("a"), I(3)), I(0)), Blk(Do1(CN("error", g.errValue()))), nil))
+			g.feat("metamethod-raises")
+		}
+		return st
 	}
 	nops := 3 + g.n(6)
 	seen := map[string]bool{}
@@ -952,6 +993,14 @@ func (g *Gen) sTBC() []Stmt {
 	st = append(st, LocAttr(g.fresh("c"), "close", CN("mkc", I(id))))
 	if g.chance(3) {
 		st = append(st, LocAttr(g.fresh("c"), "close", []Expr{CN("mkc", I(id+100)), Nl(), Fl()}[g.n(3)]))
+	}
+	if g.chance(4) {
+		st = append(st, g.tbcDecl())
+	}
+	if g.o.ErrorSites && g.chance(25) {
+		// a value that cannot be closed: the declaration itself raises
+		st = append(st, LocAttr(g.fresh("c"), "close", []Expr{I(42), S("x"), Tab(), T()}[g.n(4)]))
+		g.feat("tbc-not-closable")
 	}
 	st = append(st, g.stmts(false)...)
 	g.depth--
